@@ -332,7 +332,7 @@ def apply_degeneracy(d, rng, y, pattern):
         src = d.int(0, N - 1)
         y[..., idx, :] = y[..., [src], :]
     elif pattern == 'rank-deficient':
-        r = d.int(1, max(1, D - 1))
+        r = min(d.int(1, max(1, D - 1)), N)
         basis = y[..., :r, :].copy()
         coef = rng.normal(size=(*lead, N, r))
         if np.iscomplexobj(y):
